@@ -245,14 +245,10 @@ Proof. intros t f rs. induction rs as [|r rs IH]; intros l H; cbn; [assumption|]
 Lemma hbeats_ids : forall l, map fst (hbeats_of l) = map h_id l.
 Proof. intros l. unfold hbeats_of. rewrite map_map. reflexivity. Qed.
 
-(* sh_step does not look at is_mem except for the state backend purge *)
-Lemma sh_step_kind : forall c s o, o <> SBPurge -> sh_step true c s o = sh_step false c s o.
-Proof. intros c s o H. destruct o; try reflexivity. congruence. Qed.
-
-Lemma sh_step_hb : forall b c s o h a, sh_step b c s o = Some (h, a) ->
+Lemma sh_step_hb : forall c s o h a, sh_step c s o = Some (h, a) ->
   NoDup (map h_id (hbs s)) -> NoDup (map h_id (hbs h)).
 Proof.
-  intros b c s o h a H Hn. destruct o; cbn in H; try discriminate; try (inversion H; subst; cbn; assumption).
+  intros c s o h a H Hn. destruct o; cbn in H; try discriminate; try (inversion H; subst; cbn; assumption).
   - inversion H; subst. cbn. now apply hb_fold_nodup.
   - destruct (queue s); inversion H; subst; cbn; assumption.
 Qed.
@@ -295,7 +291,6 @@ Record Sim (ever fin : list nat) (I : idx) (S : rel) : Prop := {
   s_ever : forall i, find_row i (rows S) <> None -> In i ever;
   s_graph : BInv {| bmem := graph I; bref := redges S; finished := fin |};
   s_fin : forall x, In x fin -> In x ever /\ row_final S x;
-  s_waited : forall w x, In (w, x) (redges S) -> find_row x (rows S) <> None;
   s_hb : NoDup (map h_id (hbs (rsh S))) }.
 
 Lemma Sim_init : Sim [] [] idx0 rel0.
@@ -314,6 +309,10 @@ Proof.
   intros e1 e2 fin I S He []. constructor; auto.
   intros x Hx. destruct (s_fin0 x Hx). split; auto.
 Qed.
+
+Lemma Sim_eta_ext : forall ever fin I S, Sim ever fin I S ->
+  Sim ever fin I {| rows := rows S; rargs := rargs S; redges := redges S; rsh := rsh S |}.
+Proof. intros ever fin I S H. destruct S; exact H. Qed.
 
 (* ---- membership in the index-side candidate sets, in terms of the rows *)
 Lemma tidx_row : forall ever fin I S tk j, Sim ever fin I S ->
@@ -411,11 +410,6 @@ Lemma blocking_agree : forall ever fin I S, Sim ever fin I S ->
 Proof.
   intros ever fin I S H. unfold idx_step, rel_step. cbn [sh_step snd].
   destruct (s_graph _ _ _ _ H) as [H1 H2 H3 H4]. proj.
-  assert (forall x, In x (ready (graph I)) -> find_row x (rows S) <> None) as Hreg.
-  { intros x Hx. apply (H4 x) in Hx; [|discriminate]. destruct Hx as [Hx _]. rewrite H1 in Hx.
-    apply has_in_spec in Hx. destruct Hx as [w Hw]. now apply (s_waited _ _ _ _ H w x). }
-  assert (forallb (fun i => match rlookup i (recs I) with Some _ => true | None => false end) (ready (graph I)) = true) as ->.
-  { apply forallb_forall. intros x Hx. rewrite (s_rec _ _ _ _ H). apply Hreg in Hx. destruct (find_row x (rows S)); [reflexivity|congruence]. }
   f_equal. f_equal. apply norm_ext. intros x. unfold rel_blocking_cands. rewrite !filter_In, (s_rec _ _ _ _ H).
   remember (match find_row x (rows S) with Some r => doc_available (rst (r_rec r)) | None => false end) as runnable eqn:Er.
   assert (match option_map r_rec (find_row x (rows S)) with Some r => doc_available (rst r) | None => false end = runnable) as ->
@@ -487,10 +481,10 @@ Definition is_query (o : op) : bool :=
   | _ => false
   end.
 
-Lemma sim_query : forall ever fin I S o, Sim ever fin I S -> is_query o = true -> guard c ever S o = 0 ->
+Lemma sim_query : forall ever fin I S o, Sim ever fin I S -> is_query o = true ->
   idx_step u c trans I o = (I, snd (rel_step u c trans S o)) /\ fst (rel_step u c trans S o) = S.
 Proof.
-  intros ever fin I S o H Hq Hg. destruct o; try discriminate Hq; clear Hq.
+  intros ever fin I S o H Hq. destruct o; try discriminate Hq; clear Hq.
   - (* QRec *) unfold idx_step, rel_step. cbn [sh_step fst snd]. rewrite (s_rec _ _ _ _ H).
     destruct (find_row i (rows S)); auto.
   - (* QRetries *) unfold idx_step, rel_step. cbn [sh_step fst snd]. rewrite (s_retr _ _ _ _ H).
@@ -512,11 +506,7 @@ Proof.
   - (* QCount *) unfold idx_step, rel_step. cbn [sh_step fst snd]. split; [|reflexivity]. do 3 f_equal.
     apply norm_ext. intros j. rewrite (cands_in _ _ _ _ t sts j H). symmetry. apply in_rows_iff. apply (s_rowid _ _ _ _ H).
   - (* QFilter *) unfold idx_step, rel_step. cbn [sh_step fst snd]. split; [|reflexivity].
-    cbn [guard] in Hg. destruct (forallb (registered S) ids) eqn:Ereg; [|discriminate].
     destruct ids as [|i0 ids']; [reflexivity|].
-    assert (forallb (fun i => match rlookup i (recs I) with Some _ => true | None => false end) (i0 :: ids') = true) as ->.
-    { apply forallb_forall. intros x Hx. rewrite forallb_forall in Ereg. specialize (Ereg x Hx). unfold registered in Ereg.
-      rewrite (s_rec _ _ _ _ H). destruct (find_row x (rows S)); [reflexivity|discriminate]. }
     do 3 f_equal. apply filter_ext. intros j. rewrite (s_rec _ _ _ _ H). destruct (find_row j (rows S)); reflexivity.
   - (* QBlocking *) split; [|reflexivity]. apply (blocking_agree _ _ _ _ H).
   - (* QPending *) split; [|reflexivity]. pose proof (pending_agree _ _ _ _ H) as E.
@@ -526,31 +516,30 @@ Proof.
 Qed.
 
 (* ------------------------------------------------------------------ state-changing operations *)
-Lemma sim_shared : forall ever fin I S o h a, Sim ever fin I S -> o <> SBPurge ->
-  sh_step false c (rsh S) o = Some (h, a) ->
+Lemma sim_shared : forall ever fin I S o h a, Sim ever fin I S ->
+  sh_step c (rsh S) o = Some (h, a) ->
   idx_step u c trans I o = (iwith_sh I h, a) /\ rel_step u c trans S o = (with_sh S h, a) /\
   Sim ever fin (iwith_sh I h) (with_sh S h).
 Proof.
-  intros ever fin I S o h a H Hn E. unfold idx_step, rel_step.
-  rewrite (sh_step_kind c (ish I) o Hn), (s_sh _ _ _ _ H), E. split; [reflexivity|split; [reflexivity|]].
+  intros ever fin I S o h a H E. unfold idx_step, rel_step.
+  rewrite (s_sh _ _ _ _ H), E. split; [reflexivity|split; [reflexivity|]].
   apply Sim_with_sh; [assumption|]. eapply sh_step_hb; [exact E|apply (s_hb _ _ _ _ H)].
 Qed.
 
-Lemma nodupb_spec : forall l, nodupb l = true -> NoDup l.
-Proof.
-  induction l as [|x l IH]; cbn; intros H; [constructor|]. apply andb_true_iff in H. destruct H as [H1 H2].
-  constructor; [|now apply IH]. intros Hc. apply memb_in in Hc. rewrite Hc in H1. discriminate.
-Qed.
-
-Lemma reg_one : forall ever fin I S t rid i, Sim ever fin I S -> ~ In i ever ->
+Lemma reg_one : forall ever fin I S t rid i, Sim ever fin I S ->
+  (find_row i (rows S) <> None \/ ~ In i ever) ->
   Sim (i :: ever) fin (idx_register_one u t rid I i)
       {| rows := rel_insert t rid (rows S) i; rargs := rargs S; redges := redges S; rsh := rsh S |}.
 Proof.
-  intros ever fin I S t rid i H Hfresh.
-  assert (find_row i (rows S) = None) as Hn.
-  { destruct (find_row i (rows S)) eqn:E; [|reflexivity]. exfalso. apply Hfresh. apply (s_ever _ _ _ _ H). congruence. }
-  destruct H as [Hsh Hrec Hretr Hsidx Htidx Hcidx Haidx Hpq Hrowid Hever Hgraph Hfin Hwaited Hhb].
-  constructor; unfold idx_register_one; proj.
+  intros ever fin I S t rid i H Hcase.
+  destruct (find_row i (rows S)) as [r0|] eqn:Hn.
+  { (* already registered: both sides leave everything as it is *)
+    unfold idx_register_one, rel_insert. rewrite (s_rec _ _ _ _ H), Hn. cbn [option_map].
+    apply Sim_eta_ext. apply (Sim_ever_ext ever); [intros x Hx; now right|assumption]. }
+  assert (~ In i ever) as Hfresh by (destruct Hcase as [Hc|Hc]; [congruence|assumption]).
+  assert (rlookup i (recs I) = None) as Hri by (rewrite (s_rec _ _ _ _ H), Hn; reflexivity).
+  destruct H as [Hsh Hrec Hretr Hsidx Htidx Hcidx Haidx Hpq Hrowid Hever Hgraph Hfin Hhb].
+  unfold idx_register_one. rewrite Hri. constructor; proj.
   - assumption.
   - intros j. rewrite rlookup_rset, find_row_insert. destruct (j =? i) eqn:E.
     + apply Nat.eqb_eq in E; subst. rewrite Hn. reflexivity.
@@ -592,25 +581,30 @@ Proof.
   - intros x Hx. destruct (Hfin x Hx) as [He Hf]. split; [now right|]. unfold row_final in *. proj.
     rewrite find_row_insert. destruct (find_row x (rows S)) eqn:Eq; [assumption|].
     destruct (x =? i) eqn:Ex; [|trivial]. apply Nat.eqb_eq in Ex. subst. contradiction.
-  - intros w x Hin. rewrite find_row_insert. specialize (Hwaited w x Hin).
-    destruct (find_row x (rows S)); [discriminate|congruence].
   - assumption.
 Qed.
 
-Lemma reg_fold : forall t rid ids ever fin I S, Sim ever fin I S -> NoDup ids -> (forall i, In i ids -> ~ In i ever) ->
+Lemma find_row_insert_keeps : forall t rid l i j, find_row j l <> None -> find_row j (rel_insert t rid l i) <> None.
+Proof. intros t rid l i j H. rewrite find_row_insert. destruct (find_row j l); [discriminate|congruence]. Qed.
+
+Lemma reg_fold : forall t rid ids ever fin I S, Sim ever fin I S ->
+  (forall i, In i ids -> find_row i (rows S) <> None \/ ~ In i ever) ->
   Sim (ids ++ ever) fin (fold_left (idx_register_one u t rid) ids I)
       {| rows := fold_left (rel_insert t rid) ids (rows S); rargs := rargs S; redges := redges S; rsh := rsh S |}.
 Proof.
-  intros t rid ids. induction ids as [|i ids IH]; intros ever fin I S H Hnd Hfresh.
+  intros t rid ids. induction ids as [|i ids IH]; intros ever fin I S H Hcase.
   - cbn. destruct S; cbn; assumption.
-  - cbn [fold_left]. inversion Hnd as [|? ? Hni Hnd']; subst.
+  - cbn [fold_left].
     eapply Sim_ever_ext;
       [|apply (IH (i :: ever) fin (idx_register_one u t rid I i)
                   {| rows := rel_insert t rid (rows S) i; rargs := rargs S; redges := redges S; rsh := rsh S |})].
     + intros x Hx. apply in_app_iff in Hx. cbn. rewrite in_app_iff. cbn in Hx. tauto.
-    + apply reg_one; [assumption|]. apply Hfresh. now left.
-    + assumption.
-    + intros j Hj [->|Hc]; [contradiction|]. apply (Hfresh j); [now right|assumption].
+    + apply reg_one; [assumption|]. apply Hcase. now left.
+    + intros j Hj. proj. destruct (Hcase j (or_intror Hj)) as [Hr|Hne].
+      * left. now apply find_row_insert_keeps.
+      * destruct (Nat.eq_dec j i) as [->|Hji].
+        -- left. rewrite find_row_insert. destruct (find_row i (rows S)); [discriminate|]. rewrite Nat.eqb_refl. discriminate.
+        -- right. intros [Hc|Hc]; [congruence|contradiction].
 Qed.
 
 Lemma sim_reg : forall ever fin I S ids rid, Sim ever fin I S -> guard c ever S (Reg ids rid) = 0 ->
@@ -618,14 +612,15 @@ Lemma sim_reg : forall ever fin I S ids rid, Sim ever fin I S -> guard c ever S 
   Sim (ids ++ ever) fin (fst (idx_step u c trans I (Reg ids rid))) (fst (rel_step u c trans S (Reg ids rid))).
 Proof.
   intros ever fin I S ids rid H Hg. cbn [guard] in Hg.
-  destruct (nodupb ids && forallb (fun i => negb (memb i ever)) ids) eqn:E; [|discriminate].
-  apply andb_true_iff in E. destruct E as [E1 E2]. apply nodupb_spec in E1. rewrite forallb_forall in E2.
+  destruct (forallb (fun i => registered S i || negb (memb i ever)) ids) eqn:E; [|discriminate].
+  rewrite forallb_forall in E.
   unfold idx_step, rel_step. cbn [sh_step fst snd]. split; [reflexivity|].
   rewrite (s_sh _ _ _ _ H).
-  pose proof (reg_fold (now (rsh S)) rid ids ever fin I S H E1) as Hf.
-  assert (forall i, In i ids -> ~ In i ever) as Hfr.
-  { intros i Hi Hc. apply memb_in in Hc. specialize (E2 i Hi). rewrite Hc in E2. discriminate. }
-  specialize (Hf Hfr).
+  assert (forall i, In i ids -> find_row i (rows S) <> None \/ ~ In i ever) as Hcase.
+  { intros i Hi. specialize (E i Hi). apply orb_true_iff in E. destruct E as [E|E].
+    - left. unfold registered in E. destruct (find_row i (rows S)); [discriminate|discriminate].
+    - right. intros Hc. apply memb_in in Hc. rewrite Hc in E. discriminate. }
+  pose proof (reg_fold (now (rsh S)) rid ids ever fin I S H Hcase) as Hf.
   apply (Sim_with_sh _ _ _ _ (sh_register ids rid (rsh S))) in Hf.
   - exact Hf.
   - rewrite sh_register_hbs. apply (s_hb _ _ _ _ H).
@@ -656,7 +651,7 @@ Proof.
   assert (find_row i (upd_row i f (rows S)) = Some (f r)) as Hsame.
   { rewrite (find_row_upd i f _ i Hf), Ef, Hrid, Nat.eqb_refl. reflexivity. }
   exists (if doc_final req then i :: fin else fin).
-  destruct H as [Hsh Hrec Hretr Hsidx Htidx Hcidx Haidx Hpq Hrowid Hever Hgraph Hfin Hwaited Hhb].
+  destruct H as [Hsh Hrec Hretr Hsidx Htidx Hcidx Haidx Hpq Hrowid Hever Hgraph Hfin Hhb].
   constructor; proj.
   - reflexivity.
   - intros j. rewrite rlookup_rset. destruct (j =? i) eqn:E.
@@ -710,9 +705,6 @@ Proof.
     destruct Hx as [<-|Hx]; [|now apply Hold]. split.
     + apply Hever. congruence.
     + unfold row_final. proj. rewrite Hsame. cbn. assumption.
-  - intros w x Hin. assert (In (w, x) (redges S)) as Hin'.
-    { destruct (doc_final req); [|assumption]. unfold ref_release in Hin. apply filter_In in Hin. tauto. }
-    specialize (Hwaited w x Hin'). intros Hc. apply Hwaited. apply (find_row_upd_none i f _ x Hf). assumption.
   - cbn. assumption.
 Qed.
 
@@ -728,17 +720,25 @@ Lemma sim_idxargs : forall ever fin I S i, Sim ever fin I S ->
   Sim ever fin (fst (idx_step u c trans I (IdxArgs i))) (fst (rel_step u c trans S (IdxArgs i))).
 Proof.
   intros ever fin I S i H. unfold idx_step, rel_step. cbn [sh_step fst].
-  destruct H as [Hsh Hrec Hretr Hsidx Htidx Hcidx Haidx Hpq Hrowid Hever Hgraph Hfin Hwaited Hhb].
+  destruct H as [Hsh Hrec Hretr Hsidx Htidx Hcidx Haidx Hpq Hrowid Hever Hgraph Hfin Hhb].
   constructor; proj; try assumption.
   now apply args_fold_sync.
 Qed.
 
-Lemma sim_incr : forall ever fin I S i, Sim ever fin I S -> guard c ever S (IncR i) = 0 ->
+Lemma upd_row_absent : forall i f l, find_row i l = None -> upd_row i f l = l.
+Proof.
+  intros i f l. induction l as [|q l IH]; cbn; intros H; [reflexivity|].
+  destruct (i =? r_id q) eqn:E; [discriminate|]. rewrite Nat.eqb_sym, E. f_equal. now apply IH.
+Qed.
+
+Lemma sim_incr : forall ever fin I S i, Sim ever fin I S ->
+  snd (idx_step u c trans I (IncR i)) = snd (rel_step u c trans S (IncR i)) /\
   Sim ever fin (fst (idx_step u c trans I (IncR i))) (fst (rel_step u c trans S (IncR i))).
 Proof.
-  intros ever fin I S i H Hg. cbn [guard] in Hg. unfold registered in Hg.
-  destruct (find_row i (rows S)) as [r|] eqn:Ef; [|discriminate]. clear Hg.
-  unfold idx_step, rel_step. cbn [sh_step fst].
+  intros ever fin I S i H. unfold idx_step, rel_step. cbn [sh_step].
+  rewrite (s_retr _ _ _ _ H). destruct (find_row i (rows S)) as [r|] eqn:Ef; cbn [option_map fst snd].
+  2:{ split; [reflexivity|]. rewrite (upd_row_absent _ _ _ Ef). now apply Sim_eta_ext. }
+  split; [reflexivity|].
   pose proof (find_row_in _ _ _ Ef) as [Hrin Hrid].
   set (f := fun r0 : row => {| r_id := r_id r0; r_rec := r_rec r0; r_retry := Datatypes.S (r_retry r0); r_purge := r_purge r0 |}).
   assert (forall r0, r_id (f r0) = r_id r0) as Hf by reflexivity.
@@ -751,11 +751,11 @@ Proof.
   { intros j. destruct (Nat.eq_dec j i) as [->|E]; [rewrite Hsame, Ef; reflexivity|now rewrite (Hother j E)]. }
   assert (forall j, find_row j (upd_row i f (rows S)) <> None <-> find_row j (rows S) <> None) as Hnn.
   { intros j. pose proof (find_row_upd_none i f (rows S) j Hf). tauto. }
-  destruct H as [Hsh Hrec Hretr Hsidx Htidx Hcidx Haidx Hpq Hrowid Hever Hgraph Hfin Hwaited Hhb].
+  destruct H as [Hsh Hrec Hretr Hsidx Htidx Hcidx Haidx Hpq Hrowid Hever Hgraph Hfin Hhb].
   constructor; proj; try assumption.
   - intros j. rewrite Hrecs. apply Hrec.
   - intros j. rewrite aget_aset. destruct (j =? i) eqn:E.
-    + apply Nat.eqb_eq in E. subst j. rewrite Hsame, (Hretr i), Ef. reflexivity.
+    + apply Nat.eqb_eq in E. subst j. rewrite Hsame. reflexivity.
     + apply Nat.eqb_neq in E. rewrite (Hother j E). apply Hretr.
   - intros k j. rewrite Hsidx. destruct (Nat.eq_dec j i) as [->|E].
     + rewrite Hsame, Ef. split; intros [q [Eq Hc]]; inversion Eq; subst q; eexists; split; try reflexivity; exact Hc.
@@ -774,7 +774,6 @@ Proof.
     destruct (Nat.eq_dec x i) as [->|E].
     + rewrite Hsame. rewrite Ef in Hrf. assumption.
     + rewrite (Hother x E). assumption.
-  - intros w x Hin. apply Hnn. now apply (Hwaited w x).
 Qed.
 
 Lemma Sim_eta : forall ever fin I S, Sim ever fin I S ->
@@ -785,19 +784,14 @@ Lemma sim_wait : forall ever fin I S w xs, Sim ever fin I S -> guard c ever S (W
   Sim ever fin (fst (idx_step u c trans I (Wait w xs))) (fst (rel_step u c trans S (Wait w xs))).
 Proof.
   intros ever fin I S w xs H Hg. cbn [guard] in Hg.
-  destruct (negb (memb w xs) && forallb (registered S) xs) eqn:E; [|discriminate]. clear Hg.
-  apply andb_true_iff in E. destruct E as [E1 E2]. rewrite forallb_forall in E2.
+  destruct (negb (memb w xs)) eqn:E1; [|discriminate]. clear Hg.
   unfold idx_step, rel_step. cbn [sh_step fst].
   destruct xs as [|x0 xs']; [cbn [fst ref_wait fold_left]; now apply Sim_eta|].
   cbn [fst].
-  destruct H as [Hsh Hrec Hretr Hsidx Htidx Hcidx Haidx Hpq Hrowid Hever Hgraph Hfin Hwaited Hhb].
+  destruct H as [Hsh Hrec Hretr Hsidx Htidx Hcidx Haidx Hpq Hrowid Hever Hgraph Hfin Hhb].
   constructor; proj; try assumption.
-  - apply (bstep_inv {| bmem := graph I; bref := redges S; finished := fin |} (BWait w (x0 :: xs'))); [|assumption].
-    split; [discriminate|]. intros Hc. apply memb_in in Hc. rewrite Hc in E1. discriminate.
-  - intros a b Hin. unfold ref_wait in Hin. apply fold_add_edges in Hin. destruct Hin as [Hin|[x [Hx Heq]]].
-    + now apply (Hwaited a b).
-    + inversion Heq; subst. specialize (E2 x Hx). unfold registered in E2.
-      destruct (find_row x (rows S)); [discriminate|discriminate].
+  apply (bstep_inv {| bmem := graph I; bref := redges S; finished := fin |} (BWait w (x0 :: xs'))); [|assumption].
+  split; [discriminate|]. intros Hc. apply memb_in in Hc. rewrite Hc in E1. discriminate.
 Qed.
 
 Lemma sim_release : forall ever fin I S x, Sim ever fin I S -> guard c ever S (Release x) = 0 ->
@@ -807,17 +801,16 @@ Proof.
   destruct (find_row x (rows S)) as [r|] eqn:Ef; [|discriminate].
   destruct (doc_final (rst (r_rec r))) eqn:Efin; [|discriminate]. clear Hg.
   unfold idx_step, rel_step. cbn [sh_step fst].
-  destruct H as [Hsh Hrec Hretr Hsidx Htidx Hcidx Haidx Hpq Hrowid Hever Hgraph Hfin Hwaited Hhb].
+  destruct H as [Hsh Hrec Hretr Hsidx Htidx Hcidx Haidx Hpq Hrowid Hever Hgraph Hfin Hhb].
   constructor; proj; try assumption.
   - apply (bstep_inv {| bmem := graph I; bref := redges S; finished := fin |} (BFinish x)); [exact Logic.I|assumption].
   - intros y [<-|Hy].
     + split; [apply Hever; congruence|]. unfold row_final. proj. rewrite Ef. assumption.
     + destruct (Hfin y Hy) as [He Hrf]. split; [assumption|]. exact Hrf.
-  - intros a b Hin. unfold ref_release in Hin. apply filter_In in Hin. now apply (Hwaited a b).
 Qed.
 
 Lemma sim_opurge : forall ever fin I S, Sim ever fin I S ->
-  Sim ever [] (fst (idx_step u c trans I OPurge)) (fst (rel_step u c trans S OPurge)).
+  Sim [] [] (fst (idx_step u c trans I OPurge)) (fst (rel_step u c trans S OPurge)).
 Proof.
   intros ever fin I S H. unfold idx_step, rel_step. cbn [sh_step fst].
   constructor; proj; cbn [rlookup aget find_row option_map In].
@@ -833,7 +826,6 @@ Proof.
   - intros i E. congruence.
   - apply BInv_init.
   - intros x [].
-  - intros w x [].
   - cbn. constructor.
 Qed.
 
@@ -857,24 +849,24 @@ Proof.
   rewrite (s_sh _ _ _ _ H).
   destruct (pq I) as [|[t0 i0] rest] eqn:Epq; cbn [idx_purge_loop].
   - cbn [fst snd]. split; [reflexivity|]. apply Sim_eta.
-    destruct H as [Hsh Hrec Hretr Hsidx Htidx Hcidx Haidx Hpq Hrowid Hever Hgraph Hfin Hwaited Hhb].
+    destruct H as [Hsh Hrec Hretr Hsidx Htidx Hcidx Haidx Hpq Hrowid Hever Hgraph Hfin Hhb].
     constructor; proj; try assumption. intros t i [].
   - assert (In (t0, i0) (pq I)) as Hin by (rewrite Epq; now left).
     destruct (s_pq _ _ _ _ H _ _ Hin) as [r [Ef [Hp _]]]. apply find_row_in in Ef. destruct Ef as [Hr _].
     specialize (Hnd r Hr). unfold due in Hnd. rewrite Hp in Hnd. rewrite Hnd.
     cbn [fst snd]. split; [reflexivity|]. apply Sim_eta.
-    destruct H as [Hsh Hrec Hretr Hsidx Htidx Hcidx Haidx Hpq Hrowid Hever Hgraph Hfin Hwaited Hhb].
+    destruct H as [Hsh Hrec Hretr Hsidx Htidx Hcidx Haidx Hpq Hrowid Hever Hgraph Hfin Hhb].
     constructor; proj; try assumption. rewrite <- Epq. assumption.
 Qed.
 
 (* ------------------------------------------------------------------ one step, any operation *)
-Lemma sim_shared' : forall ever fin I S o, Sim ever fin I S -> o <> SBPurge ->
-  sh_step false c (rsh S) o <> None ->
+Lemma sim_shared' : forall ever fin I S o, Sim ever fin I S ->
+  sh_step c (rsh S) o <> None ->
   snd (idx_step u c trans I o) = snd (rel_step u c trans S o) /\
   Sim ever fin (fst (idx_step u c trans I o)) (fst (rel_step u c trans S o)).
 Proof.
-  intros ever fin I S o H Hn Hs. destruct (sh_step false c (rsh S) o) as [[h a]|] eqn:E; [|congruence].
-  destruct (sim_shared _ _ _ _ o h a H Hn E) as [E1 [E2 E3]]. rewrite E1, E2. split; [reflexivity|exact E3].
+  intros ever fin I S o H Hs. destruct (sh_step c (rsh S) o) as [[h a]|] eqn:E; [|congruence].
+  destruct (sim_shared _ _ _ _ o h a H E) as [E1 [E2 E3]]. rewrite E1, E2. split; [reflexivity|exact E3].
 Qed.
 
 Ltac shared_case H :=
@@ -882,7 +874,7 @@ Ltac shared_case H :=
   match goal with
   | |- snd (idx_step _ _ _ _ ?o) = _ /\ _ =>
       destruct (sim_shared' _ _ _ _ o H) as [E1 E3];
-      [discriminate|cbn [sh_step]; try destruct (queue _); discriminate|split; [exact E1|eexists; exact E3]]
+      [cbn [sh_step]; try destruct (queue _); discriminate|split; [exact E1|eexists; exact E3]]
   end.
 
 Lemma sim_step : forall ever fin I S o, Sim ever fin I S -> guard c ever S o = 0 ->
@@ -895,13 +887,13 @@ Proof.
   all: try (match goal with
             | |- snd (idx_step _ _ _ _ ?o) = _ /\ _ =>
                 let Eq1 := fresh "Eq1" in let Eq2 := fresh "Eq2" in
-                destruct (sim_query _ _ _ _ o H eq_refl Hg) as [Eq1 Eq2]; rewrite Eq1, Eq2; cbn [fst snd ever_after];
+                destruct (sim_query _ _ _ _ o H eq_refl) as [Eq1 Eq2]; rewrite Eq1, Eq2; cbn [fst snd ever_after];
                 split; [reflexivity|exists fin; exact H]
             end).
   - (* Reg *) destruct (sim_reg _ _ _ _ ids rid H Hg) as [E1 E2]. split; [exact E1|]. exists fin. exact E2.
   - (* SetSt *) cbn [ever_after]. apply (sim_setst _ _ _ _ i s rid H).
   - (* IdxArgs *) split; [reflexivity|]. exists fin. apply (sim_idxargs _ _ _ _ i H).
-  - (* IncR *) split; [reflexivity|]. exists fin. apply (sim_incr _ _ _ _ i H Hg).
+  - (* IncR *) destruct (sim_incr _ _ _ _ i H) as [E1 E2]. split; [exact E1|]. exists fin. exact E2.
   - (* AutoPurge *) destruct (sim_autopurge_idle _ _ _ _ H Hg) as [E1 E2]. split; [exact E1|]. exists fin. exact E2.
   - (* Wait *) split; [unfold idx_step, rel_step; cbn [sh_step]; destruct xs; reflexivity|].
     exists fin. apply (sim_wait _ _ _ _ w xs H Hg).
@@ -953,7 +945,7 @@ Proof.
   apply (sim_run u c doc_transition doc_trans_req doc_trans_final ops [] [] idx0 rel0 (Sim_init u c) Hok).
 Qed.
 
-(* ------------------------------------------------------------------ outside the domain: one witness per class *)
+(* ------------------------------------------------------------------ outside the domain: the remaining finding *)
 Definition U0 : univ :=
   {| task_of := fun i => nth i [0; 0; 0; 1; 0; 1] 9;
      call_of := fun i => nth i [0; 1; 0; 2; 3; 4] 9;
@@ -963,31 +955,19 @@ Definition C0 : conf := {| purge_after := 225; pending_limit := 320; dead_after 
 Definition diverges (ops : list op) : Prop :=
   idx_run U0 C0 doc_transition idx0 ops <> rel_run U0 C0 doc_transition rel0 ops.
 
-Definition w_reregister : list op :=
-  [Reg [0] (Some 9); SetSt 0 PENDING (Some 1); IncR 0; Tick 1; Reg [0] (Some 9); QRec 0; QRetries 0; QCount None [REGISTERED]].
-Definition w_retry_unknown : list op := [IncR 0; QRetries 0].
-Definition w_blocking_unknown : list op := [Reg [1] (Some 9); Wait 1 [0]; QBlocking].
+(* release_waiters(x) on a live x also forgets what x itself waits for ... *)
 Definition w_release_live : list op := [Reg [0; 1; 2] (Some 9); Wait 0 [1]; Release 0; Wait 2 [0]; QBlocking].
-Definition w_filter_unknown : list op := [Reg [0] (Some 9); QFilter [0; 1] [REGISTERED]].
-Definition w_sb_purge : list op := [Reg [0] (Some 9); SetWf 0 1; SBPurge; QWf 0].
-(* auto_purge after a state backend purge: clean_up_invocation needs the stored invocation *)
-Definition w_auto_purge_after_sb_purge : list op :=
-  [Reg [0] (Some 9); SetSt 0 CONCURRENCY_CONTROLLED_FINAL None; SBPurge; Tick 225; AutoPurge].
+(* ... and the same defect through the ordinary life cycle: x finishes while waiting, is auto-purged, is
+   registered again and awaited *)
+Definition w_reregister_purged : list op :=
+  [Reg [0; 1; 2] (Some 9); Wait 0 [1]; SetSt 0 CONCURRENCY_CONTROLLED_FINAL None; Tick 225; AutoPurge;
+   Reg [0] (Some 9); Wait 2 [0]; QBlocking].
 
-Lemma reregister_diverges : diverges w_reregister. Proof. vm_compute. intros H. discriminate H. Qed.
-Lemma retry_unknown_diverges : diverges w_retry_unknown. Proof. vm_compute. intros H. discriminate H. Qed.
-Lemma blocking_unknown_diverges : diverges w_blocking_unknown. Proof. vm_compute. intros H. discriminate H. Qed.
 Lemma release_live_diverges : diverges w_release_live. Proof. vm_compute. intros H. discriminate H. Qed.
-Lemma filter_unknown_diverges : diverges w_filter_unknown. Proof. vm_compute. intros H. discriminate H. Qed.
-Lemma sb_purge_diverges : diverges w_sb_purge. Proof. vm_compute. intros H. discriminate H. Qed.
-Lemma auto_purge_after_sb_purge_diverges : diverges w_auto_purge_after_sb_purge.
-Proof. vm_compute. intros H. discriminate H. Qed.
+Lemma reregister_purged_diverges : diverges w_reregister_purged. Proof. vm_compute. intros H. discriminate H. Qed.
 
-(* each witness leaves the domain through exactly its own class *)
 Lemma witness_classes :
-  map (fun w => snd (first_bad U0 C0 doc_transition 0 0 [] rel0 w))
-      [w_reregister; w_retry_unknown; w_blocking_unknown; w_release_live; w_filter_unknown; w_sb_purge]
-  = [1; 2; 3; 4; 5; 6].
+  map (fun w => snd (first_bad U0 C0 doc_transition [3; 7] 0 [] rel0 w)) [w_release_live; w_reregister_purged] = [4; 1].
 Proof. vm_compute. reflexivity. Qed.
 
 (* the statement at full strength, and its refutation for the models as transcribed from the current code *)
@@ -995,7 +975,7 @@ Definition backends_equivalent_full : Prop :=
   forall u c ops, idx_run u c doc_transition idx0 ops = rel_run u c doc_transition rel0 ops.
 
 Lemma backends_equivalent_full_refuted_l : ~ backends_equivalent_full.
-Proof. intros H. apply retry_unknown_diverges. apply H. Qed.
+Proof. intros H. apply release_live_diverges. apply H. Qed.
 
 (* non-vacuity: a sequence inside the domain that exercises registration, the lifecycle up to a final status,
    the argument index, the wait graph, both recovery scans, pagination and an (idle) auto purge *)
@@ -1003,7 +983,10 @@ Definition w_inside : list op :=
   [Reg [0; 1; 3] (Some 9); IdxArgs 0; IdxArgs 1; Wait 0 [1]; QBlocking; SetSt 1 PENDING (Some 1); Hb [1] false;
    Tick 320; QPending; SetSt 1 RUNNING (Some 1); Tick 961; QRunning; IncR 1; SetSt 1 SUCCESS (Some 1); QBlocking;
    QExisting 0 [(0, 1)] [REGISTERED; SUCCESS]; QPage None [] 2 1; QCount (Some 0) [SUCCESS]; QFilter [0; 1; 3] [SUCCESS];
-   AutoPurge; QRec 1; QRetries 1; Retrieve; QHist 1].
+   AutoPurge; QRec 1; QRetries 1; Retrieve; QHist 1;
+   (* inputs of the repaired classes: re-registration, unknown ids, state-backend purge *)
+   Reg [1; 0] (Some 9); QRec 1; QRetries 1; IncR 5; QRetries 5; Wait 3 [5]; QBlocking; QFilter [0; 5] [REGISTERED];
+   SetWf 0 1; SBPurge; QWf 0; QRctx 1].
 
 Lemma inside_example :
   all_ok U0 C0 doc_transition [] rel0 w_inside = true /\
@@ -1012,5 +995,8 @@ Lemma inside_example :
   nth 8 (rel_run U0 C0 doc_transition rel0 w_inside) OOk = OIds [1] /\
   nth 11 (rel_run U0 C0 doc_transition rel0 w_inside) OOk = OIds [1] /\
   nth 4 (rel_run U0 C0 doc_transition rel0 w_inside) OOk = OIds [1] /\
-  nth 14 (rel_run U0 C0 doc_transition rel0 w_inside) OOk = OIds [].
+  nth 14 (rel_run U0 C0 doc_transition rel0 w_inside) OOk = OIds [] /\
+  nth 26 (rel_run U0 C0 doc_transition rel0 w_inside) OOk = ONat 1 /\
+  nth 28 (rel_run U0 C0 doc_transition rel0 w_inside) OOk = ONat 0 /\
+  nth 34 (rel_run U0 C0 doc_transition rel0 w_inside) OOk = OOpt None.
 Proof. vm_compute. repeat split; reflexivity. Qed.
